@@ -103,7 +103,7 @@ def token_stream(chk, w):
         names = [(e[2] or "").split("::")[-1] for e in ev]
         if "predict" not in names:
             continue
-        want = ["filter", "from_raw", "unwrap", "predict", "for_each", "char_indices"]
+        want = ["filter", "from_raw", "predict", "for_each", "char_indices"]
         idx = []
         for x in want:
             idx.append(names.index(x) if x in names else -1)
@@ -115,6 +115,22 @@ def token_stream(chk, w):
         ci = [e for e in ev if (e[2] or "").endswith("str::char_indices")][0]
         chk.ob("R16.2", "offsets-from-original-text", ci[3][0] == absint.SYM("arg2") or ci[3][0] == ("ref", (("A", 2),)), "byte offsets are taken from %s; they must come from the original (un-normalised) text" % (ci[3][0],), site=C.site(b, ci[1]),
                sample={"char_indices_of": str(ci[3][0])})
+        # one sentence: the sentence that is predicted (built from the prefiltered text) is the one the post-filters work on
+        # and the one whose boundaries are turned into positions
+        def _root(v):
+            return v[1][:1] if v and v[0] == "ref" else None
+        s_pred = {_root(e[3][1]) for e in ev if e[2] == C.P + "::predict"}
+        s_filt = set()
+        for e in ev:
+            if (e[2] or "").endswith("::for_each") and len(e[3]) > 1 and e[3][1][0] == "agg" and str(e[3][1][1]).startswith("closure:"):
+                s_filt |= {_root(f[1]) for f in e[3][1][2]}
+        s_bnd = {_root(e[3][0]) for e in ev if e[2] == C.S + "::boundaries"}
+        fr_dests = {b.blocks[e[1]]["term"]["dest"]["local"] for e in ev if (e[2] or "").endswith("Sentence::from_raw")}
+        dest_unwrap = {r for r in s_pred if r and r[0][0] == "L" and (fr_dests & C.backward_locals(b, r[0][1]))}
+        chk.ob("R16.2", "one-sentence", len(s_pred) == 1 and s_pred == s_filt == s_bnd and None not in s_pred and s_pred <= dest_unwrap and len(fr_dests) == 1,
+               "token_stream predicts on %s, applies the post-filters to %s and reads the boundaries of %s (sentences created at %s); all three must be the sentence built from the "
+               "prefiltered text, otherwise the filters decide on character types the predictor never saw" % (sorted(map(str, s_pred)), sorted(map(str, s_filt)), sorted(map(str, s_bnd)), sorted(map(str, dest_unwrap))),
+               site=C.site(b), sample={"predict": str(s_pred), "filters": str(s_filt), "boundaries": str(s_bnd)})
         # first char index skipped once before the zip
         nx = [k for k, e in enumerate(ev) if "CharIndices" in (e[2] or "") and (e[2] or "").endswith("::next")]
         zp = [k for k, e in enumerate(ev) if (e[2] or "").endswith("::zip")]
